@@ -208,6 +208,24 @@ func (rngdata *RangeNamespaceData) verifyShares(
 		return err
 	}
 
+	// every row must carry exactly the part of the requested range that falls into it:
+	// [from.Col, odsSize) for the first row, [0, to.Col] for the last one and the whole
+	// row in between. The total amount alone does not pin the shares to their positions.
+	for i, row := range shares {
+		startCol, endCol := 0, odsSize
+		if i == 0 {
+			startCol = from.Col
+		}
+		if i == len(shares)-1 {
+			endCol = to.Col + 1
+		}
+		if len(row) != endCol-startCol {
+			return fmt.Errorf(
+				"mismatched shares amount at row %d: expected %d vs got %d", from.Row+i, endCol-startCol, len(row),
+			)
+		}
+	}
+
 	ns, err := ParseNamespace(shares, startIndex, endIndex+1)
 	if err != nil {
 		return err
